@@ -1,7 +1,7 @@
 (* Props/C13.v -- statements claimed for C13 (geometric measures), about Model/TriaGeom.v over R. *)
 From Coq Require Import List Arith Reals.
 From LaPyV Require Import Base.Scalar Base.Vec3 Base.ListAux Base.Sparse Model.TetMesh Model.TriaAdj Model.TriaOrient
-  Model.Fem Model.TriaGeom Proofs.SparseP Proofs.FemTriaP Proofs.TriaGeomP Proofs.TriaOrientP.
+  Model.Fem Model.TriaGeom Proofs.SparseP Proofs.FemTriaP Proofs.TriaGeomP Proofs.TriaOrientP Proofs.TriaAdjP Proofs.InvarianceP Proofs.VolumeTransP.
 Import ListNotations.
 Open Scope R_scope.
 
@@ -66,3 +66,15 @@ Theorem C13_volume_sign_flips_with_orientation : forall v ts,
   sumK Rops (map (tri_spat Rops v) (map flip12 ts)) = - sumK Rops (map (tri_spat Rops v) ts).
 Proof. exact volume_sum_flip_all. Qed.
 Print Assumptions C13_volume_sign_flips_with_orientation.
+
+(* volume() is translation invariant for every mesh with in-range indices and distinct corners: when the mesh is closed and
+   oriented the extra terms c . (v_i x v_j) cancel between each half-edge and its reverse; an open mesh gives 0 and a closed
+   unoriented one ValueError whatever the coordinates *)
+Theorem C13_volume_is_translation_invariant : forall c v ts, Forall distinct_tri ts -> tris_in_range (length v) ts ->
+  tria_volume Rops (translate c v) ts = tria_volume Rops v ts.
+Proof. exact tria_volume_translation_invariant. Qed.
+Print Assumptions C13_volume_is_translation_invariant.
+
+Example C13_volume_translation_example : is_closed vt_ts = true /\ is_oriented vt_ts = true /\ tria_volume Rops vt_v vt_ts = Ok (1 / 6) /\
+  tria_volume Rops (translate (5, -3, 2) vt_v) vt_ts = Ok (1 / 6).
+Proof. exact volume_example. Qed.
